@@ -164,9 +164,12 @@ func GetSignalCells(
 	// Pos is the position within the bitstream.
 	pos := startOfSignalCells
 
-	// Find the number of signal cells, ignoring any padding.
+	// The cell mask in the header gives the number of signal cells.  (Any
+	// bits after the last cell are padding.)
+	numSignalCells := header.NumSignalCells
 
-	numSignalCells := utils.GetNumberOfSignalCells(bitStream, pos, bitsPerCell)
+	// cellsAvailable is the number of cells that the bit stream can hold.
+	cellsAvailable := int(bitsLeftInFrame / bitsPerCell)
 
 	if header.MultipleMessage {
 		// The message doesn't contain all the signal cells but there should be
@@ -176,14 +179,14 @@ func GetSignalCells(
 				bitsPerCell, bitsLeftInMessage)
 			return nil, errors.New(message)
 		}
-	} else {
-		// This message should contain all the signal cells.  Check that
-		// there are the expected number.
-		if numSignalCells < header.NumSignalCells {
-			message := fmt.Sprintf("overrun - want %d MSM4 signals, got %d",
-				header.NumSignalCells, numSignalCells)
-			return nil, errors.New(message)
-		}
+	}
+
+	// The message should contain all the signal cells.  Check that
+	// there are the expected number.
+	if cellsAvailable < numSignalCells {
+		message := fmt.Sprintf("overrun - want %d MSM4 signals, got %d",
+			numSignalCells, cellsAvailable)
+		return nil, errors.New(message)
 	}
 
 	// Capture the signal fields into a set of slices, one per field.
